@@ -5,6 +5,7 @@ package secretstore
 import (
 	"bytes"
 	"fmt"
+	"strings"
 	"testing"
 
 	"pgregory.net/rapid"
@@ -48,12 +49,20 @@ func TestVerif_C01_TransientWriteFailure(t *testing.T) {
 			envs, pays = append(envs, vSeal(w.S, g, p)), append(pays, p)
 		}
 		target := rapid.IntRange(0, n-1).Draw(rt, "target")
-		failAt := rapid.IntRange(1, 5).Draw(rt, "failAt") // the n-th mutation of the open
-		desc := map[string]any{"kind": vKindNames[kind], "window": window, "non_batching": ds.NoBatch, "messages": n, "faulty_open_of": target, "failing_mutation": failAt}
+		failAt := rapid.IntRange(1, 5).Draw(rt, "failAt") // the n-th mutation of the open (or the n-th read when reads fail)
+		reads := rapid.IntRange(0, 2).Draw(rt, "reads") == 0
+		if reads {
+			failAt = rapid.IntRange(1, 9).Draw(rt, "failAtRead")
+		}
+		desc := map[string]any{"kind": vKindNames[kind], "window": window, "non_batching": ds.NoBatch, "messages": n, "faulty_open_of": target, "failing_access": failAt, "failing_access_is_a_read": reads}
 		fail := func(id, f string, a ...any) {
 			msg := fmt.Sprintf(f, a...)
-			acct.Violation("write-fault/"+id, "TestVerif_C01_TransientWriteFailure", map[string]any{"case": desc, "msg": msg})
-			rt.Fatalf("C01 write-fault/%s: %s (%v)", id, msg, desc)
+			pfx := "write-fault/"
+			if reads {
+				pfx = "read-fault/"
+			}
+			acct.Violation(pfx+id, "TestVerif_C01_TransientWriteFailure", map[string]any{"case": desc, "msg": msg})
+			rt.Fatalf("C01 %s%s: %s (%v)", pfx, id, msg, desc)
 		}
 		fired := false
 		for i := 0; i < n; i++ {
@@ -67,11 +76,23 @@ func TestVerif_C01_TransientWriteFailure(t *testing.T) {
 					}
 					return false
 				}
-				ds.FailPut = func(string) bool { return hit() }
-				ds.FailCommit = func([]string) bool { return hit() }
+				if reads {
+					ds.FailGet = func(key string) bool {
+						// records of the message path only (the keystore is read by the harness as well)
+						for _, ns := range []string{dsNamespaceChainKeyForDeviceOnGroup, dsNamespacePrecomputedMessageKeys, dsNamespaceMessageKeyForCIDs, dsNamespaceGroupDatastore} {
+							if strings.Contains(key, ns) {
+								return hit()
+							}
+						}
+						return false
+					}
+				} else {
+					ds.FailPut = func(string) bool { return hit() }
+					ds.FailCommit = func([]string) bool { return hit() }
+				}
 			}
 			o, err := vOpen(R, g, envs[i], vCID(envs[i]))
-			ds.FailPut, ds.FailCommit = nil, nil
+			ds.FailPut, ds.FailCommit, ds.FailGet = nil, nil, nil
 			if err != nil {
 				if i != target || !fired {
 					fail("honest-rejected", "genuine message %d does not open although no storage failure was injected into that open: %v", i, err)
@@ -79,7 +100,7 @@ func TestVerif_C01_TransientWriteFailure(t *testing.T) {
 				// the retry
 				o, err = vOpen(R, g, envs[i], vCID(envs[i]))
 				if err != nil {
-					fail("honest-rejected-after-transient-failure", "after one failed write during the first open (mutation %d), the same genuine envelope is rejected when presented again: %v", failAt, err)
+					fail("honest-rejected-after-transient-failure", "after one failed storage access during the first open (access %d, read=%v), the same genuine envelope is rejected when presented again: %v", failAt, reads, err)
 				}
 			}
 			if !bytes.Equal(o.Payload, pays[i]) {
@@ -91,6 +112,6 @@ func TestVerif_C01_TransientWriteFailure(t *testing.T) {
 				fail("honest-rejected-after-transient-failure", "re-opening genuine message %d after the session fails: %v", i, err)
 			}
 		}
-		acct.Case(fired, fmt.Sprintf("wf|%d|%d|%v|%d|%d|%d", kind, window, ds.NoBatch, n, target, failAt), func() any { return desc }, "write-fault", lbl(fired, "write-fault/fired"))
+		acct.Case(fired, fmt.Sprintf("wf|%d|%d|%v|%d|%d|%d|%v", kind, window, ds.NoBatch, n, target, failAt, reads), func() any { return desc }, "write-fault", lbl(fired && !reads, "write-fault/fired"), lbl(fired && reads, "read-fault/fired"))
 	})
 }
